@@ -12,6 +12,7 @@
 #include "vfh.h"
 #include <algorithm>
 #include <csignal>
+#include <memory>
 #include <votca/csg/beadlist.h>
 #include <votca/csg/interaction.h>
 #include <votca/csg/nblist.h>
@@ -64,7 +65,8 @@ struct Config {
   std::vector<int> type;  // 0,1,2 -> "A","B","C"
   std::vector<int> mol;   // molecule of each bead
   int nmol = 0;
-  std::vector<std::vector<int>> ia;  // bonded interactions (2,3 or 4 bead ids)
+  std::vector<std::vector<int>> ia;  // bonded interactions (2,3 or 4 bead ids), bead order as written (may be descending)
+  std::vector<std::pair<int, int>> xpairs;  // exclusions inserted directly (Topology::InsertExclusion)
   bool do_excl = false;
   LD M = 0, band = 0;
   bool inbound = false;  // cutoff < hmin/2 (minus band)
@@ -131,6 +133,10 @@ static void build_oracle(const Config &C, Oracle &O) {
         if (ci[k] != cj[k]) q.othercell = true;
       }
     }
+  for (auto &xp : C.xpairs) {
+    int i = std::min(xp.first, xp.second), j = std::max(xp.first, xp.second);
+    if (i != j && C.mol[i] == C.mol[j]) O.excl[(size_t)i * n + j] = 1;  // IsExcluded looks inside one molecule only
+  }
   for (auto &l : C.ia)
     for (size_t a = 0; a < l.size(); ++a)
       for (size_t b = a + 1; b < l.size(); ++b) {
@@ -151,7 +157,7 @@ static int pickN(vfh::Rng &r, bool small) {
   return small ? (int)r.range(4, 8) : (int)r.range(7, 20);
 }
 
-static void gen_config(vfh::Rng &r, Config &C, int nmax, bool threebody) {
+static void gen_config(vfh::Rng &r, Config &C, int nmax, bool threebody, int fixed_n = -1) {
   C = Config();
   double c = r.logu(0.1, 2.5);
   C.cutoff = c;
@@ -189,6 +195,7 @@ static void gen_config(vfh::Rng &r, Config &C, int nmax, bool threebody) {
     else if (cc < 8) n = (int)r.range(3, std::max(3, nmax / 6));
     else if (cc < 16) n = (int)r.range(nmax / 6, std::max(nmax / 6, nmax / 2));
     else n = (int)r.range(nmax / 2, nmax);
+    if (fixed_n >= 0) n = fixed_n;
   }
   int imgmode = (int)r.range(0, 9);
   long Rimg = imgmode <= 3 ? 0 : imgmode <= 5 ? 1 : imgmode == 6 ? 3 : imgmode == 7 ? 100 : imgmode == 8 ? 10000 : 1;
@@ -262,11 +269,38 @@ static void gen_config(vfh::Rng &r, Config &C, int nmax, bool threebody) {
     }
   }
   C.do_excl = threebody ? (r.coin(0.3)) : r.coin(0.6);
+  if (with_ia && n >= 3) {
+    // rings: chain bonds plus the closing bond written with the higher id first ("C6 C1"), and
+    // angles/dihedrals written backwards; own generator so that the other draws stay as they were
+    vfh::Rng q(vfh::hdouble(vfh::hmix(0x51c6, (uint64_t)n), c));
+    std::vector<std::vector<int>> members(C.nmol);
+    for (int i = 0; i < n; ++i) members[C.mol[i]].push_back(i);
+    for (auto &mm : members) {
+      if (mm.size() < 3 || !q.coin(0.3)) continue;
+      size_t len = (size_t)q.range(3, (long)std::min<size_t>(mm.size(), 8));
+      for (size_t k = 0; k + 1 < len; ++k) C.ia.push_back(q.coin() ? std::vector<int>{mm[k], mm[k + 1]} : std::vector<int>{mm[k + 1], mm[k]});
+      C.ia.push_back({mm[len - 1], mm[0]});
+      if (q.coin()) C.ia.push_back({mm[2], mm[1], mm[0]});
+      if (len >= 4 && q.coin()) C.ia.push_back({mm[3], mm[2], mm[1], mm[0]});
+    }
+  }
   LD M = B.m.cwiseAbs().maxCoeff();
   for (auto &p : C.pos) M = std::max(M, (LD)p.cwiseAbs().maxCoeff());
   C.M = M + (LD)B.m.cwiseAbs().maxCoeff();
   C.band = 1e-9L * c + 1e3L * EPS * C.M;
   C.inbound = (LD)c < B.hmin / 2 - 2 * C.band;
+}
+
+static void add_ia(const Config &C, Topology &top, const std::vector<int> &l, int idx) {
+  Interaction *ic = nullptr;
+  if (l.size() == 2) ic = new IBond(l[0], l[1]);
+  else if (l.size() == 3) ic = new IAngle(l[0], l[1], l[2]);
+  else ic = new IDihedral(l[0], l[1], l[2], l[3]);
+  ic->setGroup(l.size() == 2 ? "bond" : l.size() == 3 ? "angle" : "dih");
+  ic->setIndex(idx);
+  ic->setMolecule(C.mol[l[0]]);
+  top.AddBondedInteraction(ic);
+  top.getMolecule(C.mol[l[0]])->AddInteraction(ic);
 }
 
 static void build_topology(const Config &C, Topology &top) {
@@ -282,18 +316,19 @@ static void build_topology(const Config &C, Topology &top) {
     mols[C.mol[i]]->AddBead(b, "b" + std::to_string(i));
   }
   int idx = 0;
-  for (auto &l : C.ia) {
-    Interaction *ic = nullptr;
-    if (l.size() == 2) ic = new IBond(l[0], l[1]);
-    else if (l.size() == 3) ic = new IAngle(l[0], l[1], l[2]);
-    else ic = new IDihedral(l[0], l[1], l[2], l[3]);
-    ic->setGroup(l.size() == 2 ? "bond" : l.size() == 3 ? "angle" : "dih");
-    ic->setIndex(idx++);
-    ic->setMolecule(C.mol[l[0]]);
-    top.AddBondedInteraction(ic);
-    mols[C.mol[l[0]]]->AddInteraction(ic);
-  }
+  for (auto &l : C.ia) add_ia(C, top, l, idx++);
   top.RebuildExclusions();
+}
+
+// derived quantities of a configuration (after its box, cutoff or positions changed)
+static void finalize(Config &C) {
+  C.B.derive();
+  for (int k = 0; k < 3; ++k) C.N[k] = (int)std::max((LD)1.0, floorl(C.B.h[k] / (LD)C.cutoff));
+  LD M = C.B.m.cwiseAbs().maxCoeff();
+  for (auto &p : C.pos) M = std::max(M, (LD)p.cwiseAbs().maxCoeff());
+  C.M = M + (LD)C.B.m.cwiseAbs().maxCoeff();
+  C.band = 1e-9L * C.cutoff + 1e3L * EPS * C.M;
+  C.inbound = (LD)C.cutoff < C.B.hmin / 2 - 2 * C.band;
 }
 
 static J config_json(const Config &C) {
@@ -317,21 +352,24 @@ static J config_json(const Config &C) {
     is += "]";
   }
   j.raw("interactions", is + "]");
+  std::vector<int> xp;
+  for (auto &q : C.xpairs) { xp.push_back(q.first); xp.push_back(q.second); }
+  if (!xp.empty()) j.vec("inserted_exclusion_pairs_flat", xp);
   return j;
 }
 
 // ------------------------------------------------------------------ callbacks
-struct Delivery { int a, b; Eigen::Vector3d r; double d; };
+struct Delivery { int a, b; Eigen::Vector3d r; double d; const Bead *pa, *pb; };
 static std::vector<Delivery> g_del;
 static bool pair_cb(Bead *a, Bead *b, const Eigen::Vector3d &r, double d) {
-  g_del.push_back({(int)a->getId(), (int)b->getId(), r, d});
+  g_del.push_back({(int)a->getId(), (int)b->getId(), r, d, a, b});
   return true;
 }
-struct Delivery3 { int a, b, c; };
+struct Delivery3 { int a, b, c; const Bead *pa, *pb, *pc; };
 static std::vector<Delivery3> g_del3;
 static bool triple_cb(Bead *a, Bead *b, Bead *c, const Eigen::Vector3d &, const Eigen::Vector3d &, const Eigen::Vector3d &,
                       const double, const double, const double) {
-  g_del3.push_back({(int)a->getId(), (int)b->getId(), (int)c->getId()});
+  g_del3.push_back({(int)a->getId(), (int)b->getId(), (int)c->getId(), a, b, c});
   return true;
 }
 
@@ -360,17 +398,16 @@ static const char *check_vec(const Config &C, const Oracle &O, int a, int b, con
 
 struct PairResult { std::set<uint64_t> stored; };
 
+// fresh: the object's stored list was empty before this call, so it is judged
+// as the result of the call; otherwise (reuse without Cleanup, the library
+// accumulates) only "every delivered pair can be found in the list" is judged.
 template <class NB>
-static void run_pairs(const char *fam, const Config &C, const Oracle &O, Topology &top, bool twolist, const std::string &sel1,
-                      vfh::Reporter &R, PairResult &out, bool &nontrivial) {
+static void run_pairs_on(NB &nb, bool fresh, const char *fam, const Config &C, const Oracle &O, Topology &top, bool twolist,
+                         BeadList &l1, BeadList &l2, const std::string &sel1, vfh::Reporter &R, PairResult &out, bool &nontrivial) {
   int n = (int)C.pos.size();
-  BeadList l1, l2;
-  l1.Generate(top, sel1);
-  if (twolist) l2.Generate(top, "B");
   std::vector<char> in1(n, 0), in2(n, 0);
   for (auto *b : l1) in1[b->getId()] = 1;
   if (twolist) for (auto *b : l2) in2[b->getId()] = 1;
-  NB nb;
   nb.setCutoff(C.cutoff);
   nb.SetMatchFunction(&pair_cb);
   g_del.clear();
@@ -391,6 +428,10 @@ static void run_pairs(const char *fam, const Config &C, const Oracle &O, Topolog
   };
   std::map<uint64_t, int> cnt;
   for (auto &dl : g_del) {
+    if (dl.a >= n || dl.b >= n || top.getBead(dl.a) != dl.pa || top.getBead(dl.b) != dl.pb) {
+      R.violation(F + "/stale-bead-delivered", "a delivered bead does not belong to the topology of this call (left over from an earlier Generate)", wit(-1, -1));
+      continue;
+    }
     if (dl.a == dl.b) { R.violation(F + "/self-pair-delivered", "a bead was paired with itself", wit(dl.a, dl.b)); continue; }
     bool member = twolist ? (in1[dl.a] && in2[dl.b]) : (in1[dl.a] && in1[dl.b]);
     if (!member) { R.violation(F + "/pair-outside-lists", "delivered pair is not (list1,list2)", wit(dl.a, dl.b)); continue; }
@@ -437,6 +478,16 @@ static void run_pairs(const char *fam, const Config &C, const Oracle &O, Topolog
   R.counter("pairs_suppressed_by_exclusion", n_ex);
   // stored list
   out.stored.clear();
+  if (!fresh) {
+    // reuse without Cleanup(): the unchanged library accumulates the pairs of all calls (observation)
+    R.counter("reuse_calls_on_non_empty_stored_list_observed_only");
+    for (auto &kv : cnt) {
+      int a = (int)(kv.first >> 32), b = (int)(kv.first & 0xffffffffu);
+      if (!nb.FindPair(top.getBead(a), top.getBead(b)))
+        R.violation(F + "/delivered-pair-not-in-stored-list", "callback returned true but FindPair does not know the pair after the call", wit(a, b));
+    }
+    return;
+  }
   for (auto *p : nb) {
     int a = (int)p->first()->getId(), b = (int)p->second()->getId();
     if (!out.stored.insert(upair(a, b)).second) R.violation(F + "/stored-duplicate", "pair stored twice", wit(a, b));
@@ -459,6 +510,16 @@ static void run_pairs(const char *fam, const Config &C, const Oracle &O, Topolog
   }
 }
 
+template <class NB>
+static void run_pairs(const char *fam, const Config &C, const Oracle &O, Topology &top, bool twolist, const std::string &sel1,
+                      vfh::Reporter &R, PairResult &out, bool &nontrivial) {
+  BeadList l1, l2;
+  l1.Generate(top, sel1);
+  if (twolist) l2.Generate(top, "B");
+  NB nb;
+  run_pairs_on(nb, true, fam, C, O, top, twolist, l1, l2, sel1, R, out, nontrivial);
+}
+
 static void compare_grid_simple(const char *what, const Config &C, const Oracle &O, const std::set<uint64_t> &g, const std::set<uint64_t> &s,
                                 vfh::Reporter &R) {
   std::vector<uint64_t> diff;
@@ -478,20 +539,19 @@ static void compare_grid_simple(const char *what, const Config &C, const Oracle 
 struct T3 { int i, j, k; bool operator<(const T3 &o) const { return std::tie(i, j, k) < std::tie(o.i, o.j, o.k); } };
 static T3 canon(int i, int j, int k) { return {i, std::min(j, k), std::max(j, k)}; }
 
+// fresh: see run_pairs_on. Not fresh: the set of triples delivered to the
+// callback during this call (multiplicity ignored) is judged instead of the
+// accumulated stored list.
 template <class NB>
-static void run_triples(const char *fam, int nlists, const Config &C, const Oracle &O, Topology &top, const std::string &sel1,
-                        vfh::Reporter &R, std::set<T3> &stored, bool &nontrivial) {
+static void run_triples_on(NB &nb, bool fresh, const char *fam, int nlists, const Config &C, const Oracle &O, Topology &top,
+                           BeadList &l1, BeadList &l2, BeadList &l3, const std::string &sel1, vfh::Reporter &R, std::set<T3> &stored,
+                           bool &nontrivial) {
   int n = (int)C.pos.size();
-  BeadList l1, l2, l3;
-  l1.Generate(top, sel1);
-  if (nlists >= 2) l2.Generate(top, "B");
-  if (nlists >= 3) l3.Generate(top, "C");
   std::vector<char> in1(n, 0), in2(n, 0), in3(n, 0);
   for (auto *b : l1) in1[b->getId()] = 1;
   if (nlists == 1) { in2 = in1; in3 = in1; }
   if (nlists >= 2) { for (auto *b : l2) in2[b->getId()] = 1; in3 = in2; }
   if (nlists >= 3) { in3.assign(n, 0); for (auto *b : l3) in3[b->getId()] = 1; }
-  NB nb;
   nb.setCutoff(C.cutoff);
   nb.SetMatchFunction(&triple_cb);
   g_del3.clear();
@@ -520,7 +580,24 @@ static void run_triples(const char *fam, int nlists, const Config &C, const Orac
   };
   stored.clear();
   LD tol = 64 * EPS * C.M;
-  for (auto it = nb.begin(); it != nb.end(); ++it) {
+  bool stale = false;
+  for (auto &d : g_del3)
+    if (d.a >= n || d.b >= n || d.c >= n || top.getBead(d.a) != d.pa || top.getBead(d.b) != d.pb || top.getBead(d.c) != d.pc) stale = true;
+  if (stale) R.violation(F + "/stale-bead-delivered", "a delivered bead does not belong to the topology of this call (left over from an earlier Generate)", wit(-1, -1, -1));
+  if (!fresh) {
+    R.counter("reuse_calls_on_non_empty_stored_list_observed_only");
+    for (auto &d : g_del3) {
+      if (d.a >= n || d.b >= n || d.c >= n || top.getBead(d.a) != d.pa || top.getBead(d.b) != d.pb || top.getBead(d.c) != d.pc) continue;
+      int i = d.a, j = d.b, k = d.c;
+      if (i == j || i == k || j == k) { R.violation(F + "/triple-with-repeated-bead", "a bead occurs twice in a triple", wit(i, j, k)); continue; }
+      bool member = in1[i] && ((in2[j] && in3[k]) || (nlists < 3 && in2[k] && in3[j]));
+      if (!member) R.violation(F + "/triple-outside-lists", "delivered triple is not (list1,{list2,list3})", wit(i, j, k));
+      stored.insert(canon(i, j, k));
+      if (!nb.FindTriple(top.getBead(i), top.getBead(j), top.getBead(k)))
+        R.violation(F + "/delivered-triple-not-in-stored-list", "callback returned true but FindTriple does not know the triple after the call", wit(i, j, k));
+    }
+  }
+  for (auto it = nb.begin(); fresh && it != nb.end(); ++it) {
     BeadTriple *t = *it;
     int i = (int)t->bead1()->getId(), j = (int)t->bead2()->getId(), k = (int)t->bead3()->getId();
     if (i == j || i == k || j == k) { R.violation(F + "/triple-with-repeated-bead", "a bead occurs twice in a triple", wit(i, j, k)); continue; }
@@ -571,6 +648,17 @@ static void run_triples(const char *fam, int nlists, const Config &C, const Orac
   }
 }
 
+template <class NB>
+static void run_triples(const char *fam, int nlists, const Config &C, const Oracle &O, Topology &top, const std::string &sel1,
+                        vfh::Reporter &R, std::set<T3> &stored, bool &nontrivial) {
+  BeadList l1, l2, l3;
+  l1.Generate(top, sel1);
+  if (nlists >= 2) l2.Generate(top, "B");
+  if (nlists >= 3) l3.Generate(top, "C");
+  NB nb;
+  run_triples_on(nb, true, fam, nlists, C, O, top, l1, l2, l3, sel1, R, stored, nontrivial);
+}
+
 static void compare3(const char *what, const Config &C, const Oracle &O, const std::set<T3> &g, const std::set<T3> &s, vfh::Reporter &R) {
   std::vector<T3> diff;
   std::set_symmetric_difference(g.begin(), g.end(), s.begin(), s.end(), std::back_inserter(diff));
@@ -582,6 +670,182 @@ static void compare3(const char *what, const Config &C, const Oracle &O, const s
     R.violation(std::string(what) + "/grid-differs-from-simple", "3-body grid and simple search disagree on a triple outside the don't-care band", w);
     break;
   }
+}
+
+// ------------------------------------------------------------------ reuse families
+// One search object is used for several Generate() calls in sequence: other
+// positions / box (incl. orthorhombic <-> triclinic on the same Topology
+// object) / cutoff (setCutoff between calls) / bead lists / exclusion switch,
+// another Topology object in between, the ExclusionList rebuilt after an
+// interaction was added, exclusions inserted directly with descending ids, one
+// BeadList filled by two Generate() calls. What the unchanged library does
+// with the stored list: Generate() never clears it (pairs of all calls
+// accumulate, FindPair/FindTriple keep the first entry) - so the deliveries of
+// the call are judged always and the stored list only after an explicit
+// Cleanup().
+static uint64_t cfg_hash(const Config &C);
+struct Slot { Config C; std::unique_ptr<Topology> top; };
+
+static void mutate_slot(vfh::Rng &r, Slot &S, int nmax, bool threebody, vfh::Reporter &R, int action) {
+  Config &C = S.C;
+  int n = (int)C.pos.size();
+  if (action <= 4) {  // new geometry on the same Topology object
+    Config D;
+    gen_config(r, D, nmax, threebody, n);
+    int oldkind = C.B.kind;
+    C.B = D.B; C.cutoff = D.cutoff; C.pos = D.pos;
+    for (int k = 0; k < 3; ++k) C.N[k] = D.N[k];
+    finalize(C);
+    S.top->setBox(C.B.m);
+    for (int i = 0; i < n; ++i) S.top->getBead(i)->setPos(C.pos[i]);
+    R.counter(std::string("reuse_box_kind_") + (oldkind == 1 ? "ortho" : "tric") + "_to_" + (C.B.kind == 1 ? "ortho" : "tric"));
+  } else if (action == 5) {  // other cutoff only
+    C.cutoff *= r.uni(0.6, 1.6);
+    finalize(C);
+    R.counter("reuse_cutoff_changed_only");
+  } else if (action == 6 && n >= 2 && !threebody) {  // one more interaction, exclusions rebuilt
+    std::vector<int> l;
+    int a = (int)r.range(0, n - 1);
+    std::vector<int> same;
+    for (int i = 0; i < n; ++i) if (i != a && C.mol[i] == C.mol[a]) same.push_back(i);
+    if (same.empty()) return;
+    l.push_back(a);
+    int sz = (int)r.range(2, 4);
+    for (int k = 1; k < sz && !same.empty(); ++k) {
+      size_t q = (size_t)r.range(0, (long)same.size() - 1);
+      l.push_back(same[q]);
+      same.erase(same.begin() + (long)q);
+    }
+    if (r.coin()) std::sort(l.rbegin(), l.rend());  // written with descending ids
+    add_ia(C, *S.top, l, (int)C.ia.size());
+    C.ia.push_back(l);
+    S.top->RebuildExclusions();
+    R.counter("reuse_exclusions_rebuilt_after_adding_interaction");
+  } else if (action == 7 && n >= 2 && !threebody) {  // Topology::InsertExclusion(bead, list), ids in any order
+    int a = (int)r.range(0, n - 1);
+    std::vector<Bead *> l;
+    int cnt = (int)r.range(1, 4);
+    for (int k = 0; k < cnt; ++k) {
+      int b = (int)r.range(0, n - 1);
+      if (b == a) continue;
+      l.push_back(S.top->getBead(b));
+      C.xpairs.push_back({a, b});
+      if (b < a) R.counter("reuse_inserted_exclusions_with_descending_ids");
+    }
+    S.top->InsertExclusion(S.top->getBead(a), l);
+  }
+}
+
+static void judge_beadlist_twice(Topology &top, const Config &C, BeadList &u, vfh::Reporter &R) {
+  R.eval("reuse/beadlist");
+  long nA = 0, nB = 0;
+  for (int t : C.type) { if (t == 0) nA++; if (t == 1) nB++; }
+  votca::Index c1 = u.Generate(top, "A");
+  votca::Index c2 = u.Generate(top, "B");
+  bool ok = c1 == nA && c2 == nA + nB && u.size() == nA + nB;
+  long k = 0, last = -1;
+  for (auto *b : u) {
+    int want = k < nA ? 0 : 1;
+    if (k == nA) last = -1;
+    if (C.type[(size_t)b->getId()] != want || (long)b->getId() <= last) ok = false;
+    last = (long)b->getId();
+    ++k;
+  }
+  if (!ok) {
+    J w = config_json(C);
+    w.i("first_return", c1).i("second_return", c2).i("size", u.size()).i("want_A", nA).i("want_B", nB);
+    R.violation("reuse/beadlist/second-generate", "BeadList filled by Generate(\"A\") then Generate(\"B\") is not the A beads followed by the B beads", w);
+  }
+  BeadList dup;
+  dup.Generate(top, "A");
+  dup.Generate(top, "A");
+  if (dup.size() == 2 * nA && nA > 0) R.counter("beadlist_same_select_twice_lists_every_bead_twice_observed_only");
+}
+
+static void reuse_pairs(vfh::Rng &rng, const std::string &tag, vfh::Reporter &R, int nmax) {
+  Slot S[2];
+  for (int k = 0; k < 2; ++k) {
+    gen_config(rng, S[k].C, nmax, false);
+    S[k].C.tag = tag;
+    S[k].top = std::make_unique<Topology>();
+    build_topology(S[k].C, *S[k].top);
+  }
+  NBListGrid g;
+  NBList s;
+  int K = (int)rng.range(3, 6), cur = 0;
+  bool nontriv = false;
+  bool empty = true;  // stored lists empty (both objects are always treated alike)
+  for (int step = 0; step < K; ++step) {
+    if (step > 0) {
+      int action = (int)rng.range(0, 9);
+      if (action >= 8) { cur = 1 - cur; R.counter("reuse_switched_to_other_topology_object"); }
+      else mutate_slot(rng, S[cur], nmax, false, R, action);
+    }
+    Config &C = S[cur].C;
+    Topology &top = *S[cur].top;
+    C.do_excl = rng.coin(0.6);
+    C.tag = tag + " (step " + std::to_string(step) + " of " + std::to_string(K) + ")";
+    for (int k = 0; k < 3; ++k) R.counter("cells_per_dir_" + std::to_string(C.N[k]));
+    Oracle O;
+    build_oracle(C, O);
+    if (rng.coin(0.5)) { g.Cleanup(); s.Cleanup(); empty = true; R.counter("reuse_explicit_cleanup_before_call"); }
+    int variant = (int)rng.range(0, 3);
+    BeadList l1, l2;
+    std::string sel;
+    bool two = false;
+    if (variant == 0) { sel = "*"; l1.Generate(top, sel); }
+    else if (variant == 1) { sel = "A"; l1.Generate(top, sel); }
+    else if (variant == 2) { sel = "A"; two = true; l1.Generate(top, "A"); l2.Generate(top, "B"); }
+    else { sel = "A then B in one BeadList"; judge_beadlist_twice(top, C, l1, R); }
+    PairResult pg, ps;
+    std::string fg = std::string("reuse/grid/") + (two ? "two-lists" : "one-list"), fs = std::string("reuse/simple/") + (two ? "two-lists" : "one-list");
+    run_pairs_on(g, empty, fg.c_str(), C, O, top, two, l1, l2, sel, R, pg, nontriv);
+    run_pairs_on(s, empty, fs.c_str(), C, O, top, two, l1, l2, sel, R, ps, nontriv);
+    if (empty) compare_grid_simple("reuse", C, O, pg.stored, ps.stored, R);
+    empty = false;
+    if (step > 0) R.counter("reuse_generate_calls_on_used_object", 2);
+  }
+  if (nontriv) R.nontrivial(vfh::hmix(cfg_hash(S[0].C), cfg_hash(S[1].C)));
+}
+
+template <class NB3>
+static void reuse_triples(const char *prefix, vfh::Rng &rng, const std::string &tag, vfh::Reporter &R, int nmax) {
+  Slot S[2];
+  for (int k = 0; k < 2; ++k) {
+    gen_config(rng, S[k].C, nmax, true);
+    S[k].C.tag = tag;
+    S[k].top = std::make_unique<Topology>();
+    build_topology(S[k].C, *S[k].top);
+  }
+  NB3 nb;
+  int K = (int)rng.range(3, 5), cur = 0;
+  bool nontriv = false, empty = true;
+  for (int step = 0; step < K; ++step) {
+    if (step > 0) {
+      int action = (int)rng.range(0, 9);
+      if (action >= 8) { cur = 1 - cur; R.counter("reuse_switched_to_other_topology_object"); }
+      else mutate_slot(rng, S[cur], nmax, true, R, action);
+    }
+    Config &C = S[cur].C;
+    Topology &top = *S[cur].top;
+    C.tag = tag + " (step " + std::to_string(step) + " of " + std::to_string(K) + ")";
+    for (int k = 0; k < 3; ++k) R.counter("cells_per_dir_" + std::to_string(C.N[k]));
+    Oracle O;
+    build_oracle(C, O);
+    if (rng.coin(0.5)) { nb.Cleanup(); empty = true; R.counter("reuse_explicit_cleanup_before_call"); }
+    int nl = (int)rng.range(1, 3);
+    BeadList l1, l2, l3;
+    std::string sel = nl == 1 && rng.coin(0.6) ? "*" : "A";
+    l1.Generate(top, sel);
+    if (nl >= 2) l2.Generate(top, "B");
+    if (nl >= 3) l3.Generate(top, "C");
+    std::set<T3> st;
+    std::string f = std::string(prefix) + (nl == 1 ? "/one-list" : nl == 2 ? "/two-lists" : "/three-lists");
+    run_triples_on(nb, empty, f.c_str(), nl, C, O, top, l1, l2, l3, sel, R, st, nontriv);
+    empty = false;
+    if (step > 0) R.counter("reuse_generate_calls_on_used_object");
+  }
+  if (nontriv) R.nontrivial(vfh::hmix(cfg_hash(S[0].C), cfg_hash(S[1].C) + 3));
 }
 
 // ------------------------------------------------------------------ main
@@ -665,6 +929,26 @@ int main(int argc, char **argv) {
     run_triples<NBList_3Body>("simple3/three-lists", 3, C, O, top, "A", R, s, nontriv);
     compare3("3body/three-lists", C, O, g, s, R);
     if (nontriv) R.nontrivial(cfg_hash(C));
+  }
+  long nr = A.num("reuse", 0), nr3 = A.num("reuse3", 0), nr3g = A.num("reuse3grid", 0), firstr = A.num("firstr", 0);
+  std::string base = "c03 --seed " + std::to_string(seed) + " --shard " + std::to_string(shard) + " --n 0 --n3 0 --firstr ";
+  for (long ic = firstr; ic < firstr + nr; ++ic) {
+    rng.reseed(vfh::hmix(vfh::hmix(vfh::hmix(0xAC03, (uint64_t)seed), (uint64_t)shard), (uint64_t)ic));
+    std::string tag = base + std::to_string(ic) + " --reuse 1";
+    vfh::set_case(tag);
+    reuse_pairs(rng, tag, R, (int)A.num("nmaxr", 120));
+  }
+  for (long ic = firstr; ic < firstr + nr3; ++ic) {
+    rng.reseed(vfh::hmix(vfh::hmix(vfh::hmix(0xBC03, (uint64_t)seed), (uint64_t)shard), (uint64_t)ic));
+    std::string tag = base + std::to_string(ic) + " --reuse3 1";
+    vfh::set_case(tag);
+    reuse_triples<NBList_3Body>("reuse/simple3", rng, tag, R, (int)nmax3);
+  }
+  for (long ic = firstr; ic < firstr + nr3g; ++ic) {
+    rng.reseed(vfh::hmix(vfh::hmix(vfh::hmix(0xCC03, (uint64_t)seed), (uint64_t)shard), (uint64_t)ic));
+    std::string tag = base + std::to_string(ic) + " --reuse3grid 1";
+    vfh::set_case(tag);
+    reuse_triples<NBListGrid_3Body>("reuse/grid3", rng, tag, R, (int)nmax3);
   }
   R.summary();
   return 0;
